@@ -8,6 +8,7 @@ from core import (SVal, TupleVal, LocalDict, FuncVal, ClassVal, ModuleVal, ExcVa
                   KInt, KReal, KBool, KStr, KOpt, KList, KDict, KSet, KCounter, KTuple, KExt, KVec, KVec3,
                   KExtReal, CheckerError, fresh_name, fresh_val, I, B, R, S)
 from engine_expr import is_exc
+import frontend
 
 INF = float('inf')
 
@@ -17,7 +18,7 @@ class PreludeMixin:
                 'float', 'bool', 'isinstance', 'all', 'any', 'zip', 'enumerate', 'reversed', 'sum', 'abs', 'round',
                 'getattr', 'pow', 'iter', 'next', 'type', 'repr', 'print', 'frozenset', 'hasattr'}
     SPEC_BUILTINS = {'vec_le', 'vec_ge', 'vec_lt', 'vec_eq', 'vec_zero', 'dom', 'is_none', 'to_real', 'length',
-                     'keys_subset', 'str_to_int', 'alive', 'in_prefix', 'name_of', 'str_of', 'clock_now', 'eps', 'rdiv', 'is_int', 'ext', 'fs_kind', 'fs_target', 'path', 'fs_content', 'fs_ctime', 'yaml_of', 'zk_path', 'str_fn', 'zk_exists', 'zk_owner', 'zk_content', 'dict_update_opt', 'dict_put', 'dict_del', 'set_put', 'set_del', 'counter_inc', 'is_digits', 'select', 'strlen', 'cls_is', 'distinct_list'}
+                     'keys_subset', 'str_to_int', 'alive', 'in_prefix', 'name_of', 'str_of', 'clock_now', 'eps', 'rdiv', 'is_int', 'ext', 'fs_kind', 'fs_target', 'path', 'fs_content', 'fs_ctime', 'yaml_of', 'zk_path', 'str_fn', 'split_part', 'split_count', 'str_to_real', 'str_is_real', 'zk_exists', 'zk_owner', 'zk_content', 'dict_update_opt', 'dict_put', 'dict_del', 'set_put', 'set_del', 'counter_inc', 'is_digits', 'select', 'strlen', 'cls_is', 'distinct_list'}
     LIB_CONSTS = {'errno.ENOENT': 2, 'errno.EEXIST': 17, 'errno.EINVAL': 22, 'sys.maxsize': 9223372036854775807, 'np.inf': INF, 'numpy.inf': INF, 'math.inf': INF}
     LIB_MODULES_ALIAS = {}
     LIB_MODULES = {'six.moves', 'os.path', 'six.moves.urllib', 'np.random'}
@@ -52,6 +53,13 @@ class PreludeMixin:
                 return val if mode == 'values' else TupleVal([kv, val])
             return n, get
         if isinstance(it, tuple) and it and it[0] == 'range':
+            if len(it) == 6:
+                _, lo, hi, step, M, n = it
+
+                def get_step(s, i):
+                    s.assume(z3.Implies(i >= 0, z3.And(M(i + 1) == M(i) + step, M(i) >= i)))
+                    return SI(lo + M(i))
+                return n, get_step
             _, lo, hi = it
             n = z3.If(hi - lo > 0, hi - lo, 0)
             return n, (lambda s, i: SI(lo + i))
@@ -255,7 +263,8 @@ class PreludeMixin:
             fr.spec = was_spec
             self.close_binder(st, b, z3.And(j >= 0, j < n))
         if isinstance(elt, TupleVal):
-            elt = ops.pack_tuple(elt.items)
+            # a None component of a tuple element is an opaque token (kind Any)
+            elt = ops.pack_tuple([self.any_token(st, x) if x is None else x for x in elt.items])
         elt = lift(elt)
         res = fresh_val(KList(elt.kind), 'comp')
         m = res.t[0]
@@ -451,6 +460,8 @@ class PreludeMixin:
                 return outs
             if meth == 'copy':
                 return [(st, recv, None)]
+            if meth == 'sort' and not args:
+                return [(st, None, self.b_sorted(st, fr, [recv], dict(kwargs)))]
         if isinstance(k, KDict):
             if meth == 'get':
                 has = ops.dict_has(recv, args[0])
@@ -617,6 +628,20 @@ class PreludeMixin:
             return [(st, SVal(KStr, [ops.str_concat(parts)]))]
         if meth == 'isdigit':
             return [(st, SB(self.is_digits(z)))]
+        if meth == 'split' and args and isinstance(args[0], str) and (len(args) == 1 or isinstance(args[1], int)):
+            # s.split(sep[, maxsplit]): a list of 1 .. maxsplit+1 parts; the parts are functions of (s, sep, maxsplit, i)
+            # (spec: split_part / split_count); nothing else about them is assumed
+            mx = args[1] if len(args) > 1 else -1
+            cnt = SPLIT_COUNT(z, z3.StringVal(args[0]), z3.IntVal(mx))
+            st.assume(cnt >= 1)
+            if mx >= 0:
+                st.assume(cnt <= mx + 1)
+            res = fresh_val(KList(KStr), 'split')
+            j = z3.Int(fresh_name('j'))
+            st.assume(res.t[0] == cnt)
+            st.assume(z3.ForAll([j], z3.Select(res.t[1], j) == SPLIT_PART(z, z3.StringVal(args[0]), z3.IntVal(mx), j),
+                                patterns=[z3.Select(res.t[1], j)]))
+            return [(st, res)]
         if meth == 'find':
             return [(st, SI(z3.IndexOf(z, lift(args[0], KStr).z, 0)))]
         raise CheckerError('str method %s in %s' % (meth, fr.qual))
@@ -677,6 +702,9 @@ class PreludeMixin:
             return [(st, self.spec_builtin(st, fr, q[5:], args))]
         if q.startswith('opaque.'):
             self.stats['deps_used'].add(q)
+            r = self.make_path_f_term(st, fr, q, args, kwargs)
+            if r is not None:
+                return r
             return [(st, self.opaque_term(q, list(args) + [kwargs[k_] for k_ in sorted(kwargs)]))]
         if q.startswith('zfunc.'):
             f, rk = fv.py
@@ -703,6 +731,29 @@ class PreludeMixin:
         if isinstance(r, list):
             return r
         return [(st, r)]
+
+    def make_path_f_term(self, st, fr, q, args, kwargs):
+        """zknamespace.path.<x> = make_path_f(ROOT) (functools.partial(join_zookeeper_path, ROOT)): when the contract module
+        declares the child-path function cp, such a builder is read off the class body of the real source and evaluated
+        as join_zookeeper_path(ROOT, *args)."""
+        if 'cp' not in self.reg.ufuncs or kwargs:
+            return None
+        modname, _, rest = q[len('opaque.'):].rpartition('.')
+        mname, _, cname = modname.rpartition('.')
+        if not frontend.module_exists(mname):
+            return None
+        mod = frontend.module(mname)
+        cnode = mod.defs.get(cname)
+        if not isinstance(cnode, ast.ClassDef):
+            return None
+        for stn in cnode.body:
+            if (isinstance(stn, ast.Assign) and len(stn.targets) == 1 and isinstance(stn.targets[0], ast.Name) and
+                    stn.targets[0].id == rest and isinstance(stn.value, ast.Call) and
+                    isinstance(stn.value.func, ast.Name) and stn.value.func.id == 'make_path_f' and
+                    len(stn.value.args) == 1 and isinstance(stn.value.args[0], ast.Name)):
+                root = self.module_global(mod, stn.value.args[0].id)
+                return self.model_join_zookeeper_path(st, fr, [root] + list(args), {})
+        return None
 
     def opaque_term(self, q, args):
         """A pure string builder (registered with opaque()): an uninterpreted function of its arguments."""
@@ -778,7 +829,29 @@ class PreludeMixin:
             return ('range', z3.IntVal(0), lift(args[0], KInt).z)
         if len(args) == 2:
             return ('range', lift(args[0], KInt).z, lift(args[1], KInt).z)
-        raise CheckerError('range with step')
+        if len(args) == 3:
+            # range(lo, hi, step) with a symbolic step: the k-th value is lo + M(k) with M(0) = 0, M(k+1) = M(k) + step
+            # (multiplication kept out of the formulas); step == 0 raises ValueError, a negative step is not modelled
+            lo, hi, step = (lift(a, KInt).z for a in args)
+            tt, ff = self.fork(st, step > 0)
+            outs = []
+            if ff is not None:
+                z0, nz = self.fork(ff, step == 0)
+                if z0 is not None:
+                    outs.append((z0, ExcVal('ValueError')))
+                if nz is not None:
+                    raise CheckerError('range with a possibly negative step in %s' % fr.qual)
+            if tt is not None:
+                M = z3.Function(fresh_name('rstep'), I, I)
+                k = z3.Int(fresh_name('k'))
+                n = z3.Int(fresh_name('rlen'))
+                # the recurrence is instantiated where a value is taken (as_sequence), not quantified: a quantified
+                # M(k+1) = M(k) + step with trigger M(k) is a matching loop
+                tt.assume(M(0) == 0)
+                tt.assume(n >= 0, lo + M(n) >= hi, z3.Or(n == 0, lo + M(n - 1) < hi), M(n) >= n)
+                outs.append((tt, ('range', lo, hi, step, M, n)))
+            return outs
+        raise CheckerError('range arity')
 
     b_xrange = b_range
     b_six_moves_xrange = b_range
@@ -896,6 +969,16 @@ class PreludeMixin:
             return ops.coerce(v, KReal)
         if v.kind == KReal:
             return v
+        if v.kind == KStr:
+            # float(<text>): ValueError unless the text is a number (uninterpreted predicate); its value is a function of
+            # the text (spec: str_to_real)
+            tt, ff = self.fork(st, STR_IS_REAL(v.z))
+            outs = []
+            if ff is not None:
+                outs.append((ff, ExcVal('ValueError')))
+            if tt is not None:
+                outs.append((tt, SR(STR_TO_REAL(v.z))))
+            return outs
         raise CheckerError('float() of %r' % (v.kind,))
 
     def b_min(self, st, fr, args, kw):
@@ -1128,6 +1211,13 @@ class PreludeMixin:
             finally:
                 self.close_binder(st, bnd, z3.And(a >= 0, a < n, b_ >= 0, b_ < n))
             st.assume(z3.ForAll([a, b_], z3.Implies(z3.And(a >= 0, a < b_, b_ < n), le)))
+        elif not kw.get('reverse') and len(res.t) == 2:
+            # natural order of single-leaf elements; for tuple elements only the permutation is assumed (the
+            # lexicographic order facts make every later query case-split; fewer hypotheses => sound)
+            a, b_ = z3.Int(fresh_name('sa')), z3.Int(fresh_name('sb'))
+            le = ops.asz(ops.compare('<=', ops.list_get(res, a), ops.list_get(res, b_)))
+            st.assume(z3.ForAll([a, b_], z3.Implies(z3.And(a >= 0, a < b_, b_ < n), le),
+                                patterns=[z3.MultiPattern(z3.Select(res.t[1], a), z3.Select(res.t[1], b_))]))
         return res
 
     # operator module (used through _any/_all)
@@ -1213,6 +1303,14 @@ class PreludeMixin:
             return ops.ite(other.t[0], base, upd)
         if name in ('zk_exists', 'zk_owner', 'zk_content'):
             return self.zk_spec(st, name, args)
+        if name == 'split_part':
+            return SVal(KStr, [SPLIT_PART(lift(args[0], KStr).z, lift(args[1], KStr).z, lift(args[2], KInt).z, lift(args[3], KInt).z)])
+        if name == 'split_count':
+            return SI(SPLIT_COUNT(lift(args[0], KStr).z, lift(args[1], KStr).z, lift(args[2], KInt).z))
+        if name == 'str_to_real':
+            return SR(STR_TO_REAL(lift(args[0], KStr).z))
+        if name == 'str_is_real':
+            return SB(STR_IS_REAL(lift(args[0], KStr).z))
         if name in ('fs_kind', 'fs_target', 'path', 'fs_content', 'fs_ctime'):
             return self.fs_spec(st, name, args)
         if name == 'ext':
@@ -1242,6 +1340,10 @@ class PreludeMixin:
 
 from state import cls_of as cls_of_   # noqa: E402
 
+STR_IS_REAL = z3.Function('str_is_real', S, z3.BoolSort())
+STR_TO_REAL = z3.Function('str_to_real', S, z3.RealSort())
+SPLIT_COUNT = z3.Function('split_count', S, S, I, I)
+SPLIT_PART = z3.Function('split_part', S, S, I, I, S)
 EPS = z3.Real('EPS')      # np.finfo(float).eps: a positive real constant (2**-52)
 
 
